@@ -1267,7 +1267,8 @@ class Store:
         target_topology = process_store.topology[target_port] + extended_path
         target_node = process_store.outer.get_path(target_topology)
         target = target_node.add_node(source_path, source_node)
-        target_path = target.path_for() + source_path
+        # add_node returns the parent the node was attached to
+        target_path = target.path_for() + source_path[-1:]
 
         # find the paths to all the processes
         source_process_paths = source_node.depth(
